@@ -101,6 +101,9 @@ func genC04Scenario(r *rand.Rand, kind string, big bool) c04Scenario {
 		sc.Op = mk("put", target, 0, (val+nv)%maxVal+1)
 		if big && r.IntN(3) == 0 {
 			sc.Op.Val = 4 // a value of several hundred bytes
+			if sc.Pre[len(sc.Pre)-1].Val == 4 {
+				sc.Op.Val = 9 // (the latest version must differ, or the put is a no-op without a save)
+			}
 		}
 	case "activate", "delver":
 		nv := 2 + r.IntN(2)
